@@ -222,8 +222,13 @@ def _perm_rule(fn: ast.FunctionDef, attr: str) -> Tuple[str, bool]:
         if isinstance(n, ast.Call) and isinstance(n.func, ast.Attribute) and n.func.attr == 'get' \
                 and isinstance(n.func.value, ast.Attribute) and n.func.value.attr == attr and len(n.args) == 2:
             a0, a1 = n.args
+            # `'no-' + permission`, or `'no-' + permission.lower()` since option names are stored in lower case
+            right = a0.right if isinstance(a0, ast.BinOp) else None
+            if isinstance(right, ast.Call) and isinstance(right.func, ast.Attribute) and right.func.attr == 'lower' \
+                    and not right.args:
+                right = right.func.value
             if isinstance(a0, ast.BinOp) and isinstance(a0.op, ast.Add) and isinstance(a0.left, ast.Constant) \
-                    and isinstance(a0.right, ast.Name) and a0.right.id == 'permission' \
+                    and isinstance(right, ast.Name) and right.id == 'permission' \
                     and isinstance(a1, ast.Constant) and isinstance(a1.value, bool):
                 return str(a0.left.value), bool(a1.value)
     raise Untranslatable(f'{fn.name}: option lookup not understood')
